@@ -1643,6 +1643,72 @@ def format_spec_cfgs(tree: ast.Module) -> dict:
     return out
 
 
+# ---------------------------------------------------------------------------------------------- __eq__ / __ne__
+def eq_shapes(tree: ast.Module) -> tuple[list[tuple[str, list[tuple[str, str]]]], dict]:
+    """__eq__ of VecBase / AngleBase / MatrixBase on an operand of the same family (SM/FrozenEq.v): the branch
+    `if isinstance(other, <Base>)` must return a conjunction of per-slot tests `abs(other._s - self._s) < T` / `<= T` (either
+    operand order, T a numeric constant) or `self._s == other._s`; anything else is CUnknown for that slot.  __ne__, when the
+    class defines it, must be the slot-wise negation joined by `or` (flag ne_is_negation)."""
+    from fractions import Fraction
+    rows: list[tuple[str, list[tuple[str, str]]]] = []
+    info: dict = {}
+    ne_ok = True
+    NEG = {ast.Lt: ast.GtE, ast.LtE: ast.Gt, ast.Eq: ast.NotEq}
+    for base in ('VecBase', 'AngleBase', 'MatrixBase'):
+        cdef = next((c for c in tree.body if isinstance(c, ast.ClassDef) and c.name == base), None)
+        fam = FAMILY_SLOTS[base]
+
+        def tests(fname: str, joiner) -> list[tuple[str, type, str]] | None:
+            """[(slot, comparison operator class, tolerance as a Coq Q or '')] of the same-family branch, None if absent"""
+            fn = next((f for f in (cdef.body if cdef else []) if isinstance(f, ast.FunctionDef) and f.name == fname), None)
+            if fn is None or len(fn.args.args) != 2:
+                return None
+            me, ot = fn.args.args[0].arg, fn.args.args[1].arg
+            br = next((st for st in _nodoc(fn.body) if isinstance(st, ast.If) and isinstance(st.test, ast.Call) and isinstance(st.test.func, ast.Name)
+                       and st.test.func.id == 'isinstance' and len(st.test.args) == 2 and isinstance(st.test.args[0], ast.Name) and st.test.args[0].id == ot
+                       and isinstance(st.test.args[1], ast.Name) and st.test.args[1].id in (base, 'Py_' + base)), None)
+            if br is None or len(br.body) != 1 or not isinstance(br.body[0], ast.Return) or br.body[0].value is None:
+                return []
+            e = br.body[0].value
+            parts = e.values if isinstance(e, ast.BoolOp) and isinstance(e.op, joiner) else [e]
+            out = []
+            for t in parts:
+                slot, op, tol = '?', type(None), ''
+                if isinstance(t, ast.Compare) and len(t.ops) == 1:
+                    l, r = t.left, t.comparators[0]
+                    sl = lambda x, who: x.attr if isinstance(x, ast.Attribute) and isinstance(x.value, ast.Name) and x.value.id == who and x.attr in fam else None
+                    if isinstance(t.ops[0], (ast.Eq, ast.NotEq)):
+                        a, b = sl(l, me) or sl(l, ot), sl(r, ot) or sl(r, me)
+                        if a and a == b and {getattr(l.value, 'id', None), getattr(r.value, 'id', None)} == {me, ot}:
+                            slot, op = a, type(t.ops[0])
+                    elif isinstance(l, ast.Call) and isinstance(l.func, ast.Name) and l.func.id == 'abs' and len(l.args) == 1 and isinstance(l.args[0], ast.BinOp) \
+                            and isinstance(l.args[0].op, ast.Sub):
+                        x, y = l.args[0].left, l.args[0].right
+                        a, b = sl(x, me) or sl(x, ot), sl(y, ot) or sl(y, me)
+                        c = _CONSTS.get(r.id) if isinstance(r, ast.Name) else r
+                        if a and a == b and {getattr(x.value, 'id', None), getattr(y.value, 'id', None)} == {me, ot} \
+                                and isinstance(c, ast.Constant) and type(c.value) in (int, float):
+                            q = Fraction(repr(c.value))
+                            slot, op, tol = a, type(t.ops[0]), f'(QArith_base.Qmake ({q.numerator})%Z {q.denominator}%positive)'
+                out.append((slot, op, tol))
+            return out
+        eq = tests('__eq__', ast.And)
+        cmps: list[tuple[str, str]] = []
+        for slot, op, tol in (eq or []):
+            k = f'CTol true {tol}' if op is ast.Lt and tol else f'CTol false {tol}' if op is ast.LtE and tol else 'CExact' if op is ast.Eq and not tol else 'CUnknown'
+            cmps.append((slot, k))
+        if not cmps:
+            cmps = [('?', 'CUnknown')]
+        rows.append((base, cmps))
+        ne = tests('__ne__', ast.Or)
+        if ne is not None:                   # defined: must negate __eq__ slot by slot
+            ok = eq is not None and len(ne) == len(eq) and all(a[0] == b[0] and a[2] == b[2] and NEG.get(a[1]) is b[1] for a, b in zip(eq, ne))
+            info.setdefault('ne_is_negation', {})[base] = bool(ok)
+            ne_ok = ne_ok and bool(ok)
+    info['ne_is_negation_all'] = ne_ok
+    return rows, info
+
+
 # ---------------------------------------------------------------------------------------------- __hash__
 _PURE_HASH_BUILTINS = {'hash', 'round', 'tuple', 'abs', 'float', 'int'}
 
@@ -2430,6 +2496,8 @@ def translate() -> tuple[str, dict]:
     info.update(sinfo)
     hashes, hinfo = hash_kinds(tree)
     inplace = inplace_methods(tree)
+    eqs, einfo = eq_shapes(tree)
+    info.update(einfo)
     specs = format_spec_cfgs(tree)
     info.update(hinfo)
     # __str__: three numbers separated by single spaces
@@ -2446,7 +2514,7 @@ def translate() -> tuple[str, dict]:
     lines = [
         '(* GENERATED by translate/c05_sites.py from src/srctools/math.py. Do not edit. *)',
         'From Coq Require Import ZArith NArith List String.',
-        'From SV Require Import Num.Dec6 Num.AngleSites Num.AngleCtor Num.SpecStrip Num.VecText SM.FrozenOps SM.FrozenCopy SM.FrozenCopyValue SM.FrozenHash.',
+        'From SV Require Import Num.Dec6 Num.AngleSites Num.AngleCtor Num.SpecStrip Num.VecText SM.FrozenOps SM.FrozenCopy SM.FrozenCopyValue SM.FrozenHash SM.FrozenEq.',
         'Import ListNotations.', 'Open Scope string_scope.',
         '(* every store to an _pitch/_yaw/_roll slot: (file:Class.function:slot, classification of the stored value) *)',
         'Definition angle_sites : list (string * rhs) := [',
@@ -2499,6 +2567,11 @@ def translate() -> tuple[str, dict]:
         f'strip_dot := {b(c["strip_dot"])}; dot_outside := {b(c["dot_outside"])}; spec_neg_zero_fix := {b(c["neg_zero_fix"])} |}}.'
         for k, c in (('vec', specs['vec']), ('angle', specs['angle']))
     ] + [
+        '(* == on two objects of one family: comparison per slot; != is its negation *)',
+        'Definition eq_shapes : list eq_row := [',
+        ';\n'.join(f'  ({_s(c)}, [' + '; '.join(f'({_s(sl)}, {k})' for sl, k in cm) + '])' for c, cm in eqs),
+        '].',
+        f'Definition ne_is_negation_of_eq : bool := {b(einfo["ne_is_negation_all"])}.',
         '(* every in-place operator method: (defining class, name) *)',
         'Definition inplace_rows : list inplace_row := [',
         ';\n'.join(f'  ({_s(c)}, {_s(m)})' for c, m in inplace),
@@ -2509,7 +2582,7 @@ def translate() -> tuple[str, dict]:
         '].',
         '',
     ]
-    side = {'format_spec': specs, 'inplace_rows': [list(r) for r in inplace], 'hash_kinds': [list(h) for h in hashes], 'angle_ctor_rows': [list(r) for r in ctor_rows], 'fresh_by_name': [list(x) for x in fresh], 'copy_shapes': [list(x) for x in shapes], 'angle_sites': [list(s) for s in sites], 'angle_creations': [list(c) for c in creations], 'format_float': cfg, 'parse_vec_str': pcfg, 'str_templates': strs,
+    side = {'eq_shapes': [[c, [list(x) for x in cm]] for c, cm in eqs], 'format_spec': specs, 'inplace_rows': [list(r) for r in inplace], 'hash_kinds': [list(h) for h in hashes], 'angle_ctor_rows': [list(r) for r in ctor_rows], 'fresh_by_name': [list(x) for x in fresh], 'copy_shapes': [list(x) for x in shapes], 'angle_sites': [list(s) for s in sites], 'angle_creations': [list(c) for c in creations], 'format_float': cfg, 'parse_vec_str': pcfg, 'str_templates': strs,
             'mut_events': [list(m) for m in muts], 'result_kinds': [list(r) for r in results], 'n_methods': len(meths), **info,
             'digests': {'parse_vec_str': _digest(tree, 'parse_vec_str'), 'format_float': cfg['digest']}}
     return '\n'.join(lines), side
